@@ -287,7 +287,9 @@ def run_program(job):
                 rest = [o for o in st.live_obs if o["phase"] not in ("codegen", "observer-error")]
                 rng.shuffle(rest)
                 cap = job.get("live_cap", 4)
-                for o in cg[:cap] + rest[:cap]:
+                if job["tier"] == "quick" and level != job["levels"][-1]:
+                    cg, rest = cg[:0], rest[:1]          # quick: code-generation tables of one level, one pass-time table per level
+                for o in cg[:2 * cap] + rest[:cap]:
                     res["live"].append(dict(o, prog=entry["name"], level=level))
             if job.get("want_snaps"):
                 for s in st.snaps:
